@@ -51,6 +51,7 @@ type World struct {
 	varsMemo    map[*Term][]*Term
 	feasQuery   bool
 	fpMemo      map[*Term]uint32
+	envPool     []map[ssa.Value]value
 }
 
 // InputRec describes one symbolic input created by a vf* call.
